@@ -585,7 +585,7 @@ class BrowseableItem:
         instance = subclass(
             **hci.HCI_Object.dict_from_bytes(data, offset + 3, subclass.fields)
         )
-        instance._payload = data[3:]
+        instance._payload = data[offset + 3 : offset + 3 + length]
         return offset + length + 3, instance
 
     def __bytes__(self) -> bytes:
